@@ -115,6 +115,7 @@ package goat
 
 //@ func goat.(*handler).processUnaryRpc
 //@   nopanic[C12.nopanic]
+//@   atcall[C20.end_reports_final_error] internal.StatsEndRPC : arg3 == appErr && !arg1
 //@   requires rpc != nil && rpc.Header != nil && info != nil && md != nil && md.Handler != nil && clientCtx != nil
 //@   ensures[C01.response_envelope C06.unary_response C16.return_route C05.response_id] result != nil && result.Id == rpc.Id && result.Header != nil
 //@     | && result.Header.Source == rpc.Header.Destination && result.Header.Destination == rpc.Header.Source && result.Trailer != nil && result.Reset_ == nil
@@ -139,6 +140,7 @@ package goat
 
 //@ func goat.(*handler).runStream
 //@   nopanic[C12.nopanic]
+//@   atcall[C20.end_reports_final_error] internal.StatsEndRPC : arg3 == appErr && !arg1
 //@   requires info != nil && sd != nil && sd.Handler != nil && rpc != nil && rpc.Header != nil && ctx != nil
 //@   requires handler.ch != nil && handler.cancel != nil && handler.done != nil && isclass(handler.ch, "goat.streams.ch") && tag(handler.ch) == streamId && isclass(handler.done, "none")
 //@   ensures[C14.stream_unregistered C10.stream_unregistered] !(streamId in h.streams)
@@ -409,6 +411,7 @@ package goat
 
 //@ func goat.(*ClientConn).invoke
 //@   nopanic[C13.nopanic]
+//@   atcall[C20.end_reports_final_error] internal.StatsEndRPC : arg3 == err && arg1
 //@   requires ctx != nil && len(opts) == 0
 //@   atcall[C01.request_carries_args C06.unary_request_header C04.request_metadata C08.request_timeout] client.(*RpcMultiplexer).CallUnaryMethod :
 //@     | arg2 != nil && arg2.Method == method && arg2.Source == cc.sourceAddress && arg2.Destination == cc.destAddress && arg2.Headers == headers
@@ -418,13 +421,12 @@ package goat
 //@   ensures[C01.one_call C20.one_call] ncalls("call:client.(*RpcMultiplexer).CallUnaryMethod") <= old(ncalls("call:client.(*RpcMultiplexer).CallUnaryMethod")) + 1
 //@   ensures[C01.reply_always_decoded] result == nil ==> bound("replyBody") && replyBody != nil
 //@   ensures[C13.decode_error_reported C01.decode_error_reported] ncalls("(google.golang.org/grpc/encoding.CodecV2).Unmarshal") == old(ncalls("(google.golang.org/grpc/encoding.CodecV2).Unmarshal")) + 1 ==> result == lastret("CodecV2).Unmarshal")
-//@   ensures[C03.error_passed_on C13.success_only_with_data] result == nil ==> ncalls("(google.golang.org/grpc/encoding.CodecV2).Unmarshal") == old(ncalls("(google.golang.org/grpc/encoding.CodecV2).Unmarshal")) + 1
+//@   ensures[C03.error_passed_on C13.success_only_with_data C01.success_only_with_decoded_reply] result == nil ==> ncalls("(google.golang.org/grpc/encoding.CodecV2).Unmarshal") == old(ncalls("(google.golang.org/grpc/encoding.CodecV2).Unmarshal")) + 1
 //@   ensures[C20.begin_end_once] ncalls("call:internal.StatsStartServerRPC") == old(ncalls("call:internal.StatsStartServerRPC")) + 1 && ncalls("call:internal.StatsEndRPC") == old(ncalls("call:internal.StatsEndRPC")) + 1
 
 // deferred closure of invoke: the End event carries invoke's final error
 //@ func goat.(*ClientConn).invoke$1
 //@   inline
-//@   atcall[C20.end_reports_final_error] internal.StatsEndRPC : arg3 == err && arg1
 
 // request decoder handed to the user's handler: called by user code with any message, must not crash
 // on any request shape (absent body, empty body)
@@ -436,11 +438,9 @@ package goat
 
 //@ func goat.(*handler).processUnaryRpc$1
 //@   inline
-//@   atcall[C20.end_reports_final_error] internal.StatsEndRPC : arg3 == appErr && !arg1
 
 //@ func goat.(*handler).runStream$3
 //@   inline
-//@   atcall[C20.end_reports_final_error] internal.StatsEndRPC : arg3 == appErr && !arg1
 
 //@ func goat.(*ClientConn).Invoke
 //@   nopanic[C13.nopanic]
